@@ -19,6 +19,8 @@ pub fn def() -> PropDef {
         needed_probes: &["c03_restart_seen", "c03_stream_actor", "c03_start_failed", "c03_graceful_end_checked"],
         quick_runs: 30_000,
         thorough_runs: 2_000_000,
+        block: 1,
+        flavours: &["tokio"],
     }
 }
 
